@@ -311,6 +311,10 @@ func (in *Interp) merge(cond *Term, a, b value) value {
 		if y, ok := b.(*value); ok && x == y {
 			return a
 		}
+	case float64:
+		if y, ok := b.(float64); ok && x == y {
+			return a
+		}
 	case iface:
 		y, ok := b.(iface)
 		if ok && x.t == nil && y.t == nil {
